@@ -1,5 +1,6 @@
 import LalModel.Proof.GroupFlv
 import LalModel.Proof.GopRing
+import LalModel.Proof.GroupKey
 /-
   C02 — Every consumer starts decodable: headers, then a key frame, bounded GOP replay.
   Property theorems for the RTMP / HTTP-FLV / WS-FLV consumers of the group model (`Group.run`,
@@ -94,5 +95,36 @@ theorem waiting_holds_only_headers (cfg : Cfg) (evs : List Ev) :
     cases hs : x.start with
     | none => exact (ok.wait_ hf hs).2
     | some a => have := (ok.live_ hf a hs).1; rw [hw] at this; cases this
+
+/-- "Each consumer's first video frame is a key frame", cache side: in every reachable state every cached GOP of
+    both caches is non-empty and begins with the cached form (RTMP chunks / FLV tag) of a key-frame message; hence the
+    first thing replayed to a fresh consumer after the headers (`prologue_is_headers_then_gops`) is a key frame. -/
+theorem cached_gops_start_with_key_frame (cfg : Cfg) (evs : List Ev) :
+    (∀ gop ∈ GopCache.gops (run cfg evs).rtmpGop, ∃ m : InMsg,
+        Classify.isVideoKeyNalu m.typ m.payload = true ∧ gop.head? = some (chunksWithoutSdf m)) ∧
+    (∀ gop ∈ GopCache.gops (run cfg evs).flvGop, ∃ m : InMsg,
+        Classify.isVideoKeyNalu m.typ m.payload = true ∧ gop.head? = some (tagWithoutSdf m)) ∧
+    (∀ x, (GopCache.gops (run cfg evs).rtmpGop).flatten.head? = some x →
+        ∃ m : InMsg, Classify.isVideoKeyNalu m.typ m.payload = true ∧ x = chunksWithoutSdf m) ∧
+    (∀ x, (GopCache.gops (run cfg evs).flvGop).flatten.head? = some x →
+        ∃ m : InMsg, Classify.isVideoKeyNalu m.typ m.payload = true ∧ x = tagWithoutSdf m) := by
+  obtain ⟨hr, hf⟩ := run_keyheads cfg evs
+  have first : ∀ (itemOf : InMsg → Bytes) (G : List (List Bytes)), KeyHeads itemOf G → ∀ x, G.flatten.head? = some x →
+      ∃ m : InMsg, Classify.isVideoKeyNalu m.typ m.payload = true ∧ x = itemOf m := by
+    intro itemOf G hG x hx
+    cases G with
+    | nil => simp at hx
+    | cons g rest =>
+      obtain ⟨m, hk, hh⟩ := hG g List.mem_cons_self
+      cases g with
+      | nil => simp at hh
+      | cons y r =>
+        simp only [List.flatten_cons, List.cons_append, List.head?_cons, Option.some.injEq] at hx hh
+        exact ⟨m, hk, by rw [← hx, hh]⟩
+  exact ⟨hr, hf, first _ _ hr, first _ _ hf⟩
+
+/-- non-vacuity: after a key frame the RTMP cache of a caching configuration holds a GOP -/
+example : (GopCache.gops (run { rtmpCache := true, rtmpGopNum := 1 } [.addPub, .msg ⟨9, 0, [0x17, 1, 0, 0, 0, 9]⟩]).rtmpGop).length = 1 := by
+  decide
 
 end Lal.Props.C02
